@@ -273,6 +273,21 @@ class Engine:
             return P.SymFrac(z3.ToReal(x.z))
         return Fraction(x)
 
+    def is_rounding(self, mode, m, v):
+        """formula: m is an integer and equals rational v rounded under `mode`
+        (textbook definition over the rationals, proxies.round_spec)"""
+        from . import proxies as P
+        mz = P._lift(m)[0]
+        vz = P._lift(v)[0]
+        mi = z3.ToInt(mz)
+        return _fb(z3.And(z3.IsInt(mz), P.round_spec(mode, mi, vz, pure=True)))
+
+    def div_is_rounding(self, mode, m, x, y):
+        """formula over integers, y > 0: m == x / y rounded under `mode`, stated
+        without division (d = x - m*y compared with y)"""
+        from . import proxies as P
+        return _fb(P.div_round_spec(mode, P.SymInt._l(m), P.SymInt._l(x), P.SymInt._l(y)))
+
     def n_roundings(self):
         return len(self.round_log)
 
@@ -285,6 +300,9 @@ class Engine:
     def _add(self, cond):
         self.pc.append(cond)
         self.solver.add(cond)
+        # the cached model stays valid only if it satisfies the new conjunct
+        if self.model is not None and self._eval_bool(cond) is not True:
+            self.model = None
 
     def _query(self, extra, ms):
         """check pc + extra; returns ('sat', model) / ('unsat', None) / ('unknown', None)"""
@@ -425,8 +443,6 @@ class Engine:
         if z3.is_false(z):
             raise PathAbort('assume-false')
         self._add(z)
-        if self._eval_bool(z) is not True:
-            self.model = None
 
     def hint(self, cond):
         """Soft constraint used only when picking the witness model."""
